@@ -496,6 +496,14 @@ impl Store {
                 2 => {
                     rl.dump().write_to_string()?;
                 }
+                5 => {
+                    // a dump abandoned after its second record
+                    let mut n = 0;
+                    let _ = rl.dump().write_with(|_c, _i, _res| {
+                        n += 1;
+                        if n >= 2 { Err(std::io::Error::other("stop")) } else { Ok(()) }
+                    });
+                }
                 3 => {
                     let mut d = rl.dump_data();
                     let _ = d.state();
